@@ -3,7 +3,7 @@
 import concurrent.futures, glob, os, shutil, subprocess, sys, tempfile
 HERE = os.path.dirname(os.path.dirname(os.path.abspath(__file__)))
 PY = '/venv/bin/python'
-PROPS = ['C%02d' % i for i in range(1, 21)]
+PROPS = os.environ.get('HXSA_PROPS', '').split(',') if os.environ.get('HXSA_PROPS') else ['C%02d' % i for i in range(1, 21)]
 
 def run(patch):
     d = tempfile.mkdtemp(prefix='hxsa_bn_')
